@@ -482,6 +482,7 @@ pub fn step_name(s: &Step) -> &'static str {
         Step::ClearGrad { .. } => "clear-gradient",
         Step::Update { .. } => "update",
         Step::ProbeSole { .. } => "probe-sole-owner",
+        Step::Copy { .. } => "copy",
     }
 }
 
